@@ -10,6 +10,7 @@ package forwarding
 // ---------------------------------------------------------------------------------------------
 
 //@ macro orbAddr() = bech32(core.ModuleAddress)
+//@ macro orb() = core.ModuleAddress
 //@ macro destAmount(ta) = ta.destinationCoin.Amount
 //@ macro destDenom(ta) = ta.destinationCoin.Denom
 
@@ -24,6 +25,9 @@ package forwarding
 //@   requires[base] transferAttr != nil && cctpAttr != nil && !isnil(transferAttr.destinationCoin.Amount)
 //@   modifies bank, out_n, out_kind, out_cctp, out_cctpc
 //@   ensures[C05] out_n == old(out_n) + 1
+//   Ledger effect (C01, C02, C11): exactly the running amount of the running denomination is burned from the orbiter account.
+//@   ensures[C01,C02,C11] err == nil ==> bank == burn(old(bank), orb(), destDenom(transferAttr), val(destAmount(transferAttr))) && val(destAmount(transferAttr)) > 0 && bal(old(bank), orb(), destDenom(transferAttr)) >= val(destAmount(transferAttr))
+//@   ensures[C01,C02,C03,C11] err != nil ==> bank == old(bank)
 //@   ensures[C05] len(cctpAttr.DestinationCaller) == 0 ==> cctpReqOK(transferAttr, cctpAttr)
 //@   ensures[C05] len(cctpAttr.DestinationCaller) != 0 ==> cctpcReqOK(transferAttr, cctpAttr)
 
@@ -40,6 +44,10 @@ package forwarding
 //@   requires[base] len(hypAttr.TokenId) == 32 && len(hypAttr.Recipient) == 32 && (len(hypAttr.CustomHookId) == 0 || len(hypAttr.CustomHookId) == 32)
 //@   modifies bank, out_n, out_kind, out_hyp
 //@   ensures[C05] out_n == old(out_n) + 1 && hypReqOK(transferAttr, hypAttr)
+//   Ledger effect: the running amount of the token's origin denomination moves from the orbiter account into the warp module.
+//@   ensures[C01,C02,C11] err == nil ==> bank == move(old(bank), orb(), warpAccount(hexstr(toarray32(hypAttr.TokenId))), tokenDenom(hexstr(toarray32(hypAttr.TokenId))), val(destAmount(transferAttr))) &&
+//@                          val(destAmount(transferAttr)) > 0 && bal(old(bank), orb(), tokenDenom(hexstr(toarray32(hypAttr.TokenId)))) >= val(destAmount(transferAttr))
+//@   ensures[C01,C02,C03,C11] err != nil ==> bank == old(bank)
 
 // --- Internal
 //@ macro sendReqOK(ta, a) = out_kind == 4 && out_send.FromAddress == orbAddr() && out_send.ToAddress == a.Recipient && len(out_send.Amount) == 1 &&
@@ -50,6 +58,10 @@ package forwarding
 //@   requires[base] transferAttr != nil && intAttr != nil && coinOK(transferAttr.destinationCoin)
 //@   modifies bank, out_n, out_kind, out_send
 //@   ensures[C05] out_n == old(out_n) + 1 && sendReqOK(transferAttr, intAttr)
+//   Ledger effect: the running coin moves from the orbiter account to the decoded recipient.
+//@   ensures[C01,C02,C11] err == nil ==> okAddr(intAttr.Recipient) && bank == move(old(bank), orb(), decodeAddr(intAttr.Recipient), destDenom(transferAttr), val(destAmount(transferAttr))) &&
+//@                          val(destAmount(transferAttr)) > 0 && bal(old(bank), orb(), destDenom(transferAttr)) >= val(destAmount(transferAttr))
+//@   ensures[C01,C02,C03,C11] err != nil ==> bank == old(bank)
 
 // --- The controllers: the attributes must be of the controller's own type (anything else is refused
 // with no request sent); on success exactly one request went out and it is built from the packet's
